@@ -28,6 +28,14 @@ func TestReplay(t *testing.T) {
 	if err != nil {
 		t.Fatal(err)
 	}
+	if cf.Sub == "agent" {
+		var ac AgentCase
+		if err := json.Unmarshal(cf.Case, &ac); err != nil {
+			t.Fatal(err)
+		}
+		checkAgent(t, ac)
+		return
+	}
 	if cf.Sub != "sched" {
 		t.Skip("not a sched case")
 	}
